@@ -302,7 +302,7 @@ Proof.
   destruct (get_or_load_loaded _ _ _ _ _ Hroot El Hov) as [Hov1 Hg1].
   assert (Hfile : existed file = false -> is_file fs (normalize target) = false) by (apply Hov1; assumption).
   destruct (pf_rename fp).
-  - destruct (pf_new fp) as [newname|]; [|discriminate].
+  - destruct (knew fp) as [newname|]; [|discriminate].
     unfold move_out in H.
     set (stay := {| content := []; existed := existed file; deleted := true; perm := None |}) in *.
     set (tmp := {| content := content file; existed := false; deleted := false; perm := perm file |}) in *.
